@@ -201,6 +201,7 @@ def r4(idx, rep):
     rep.stats["table_rows"] = rep.stats.get("table_rows", 0) + n
     # Matcher.header_index: int passes through, numeric string → int, else the csvpath's header index; CsvPath.header_index: position or None
     header_index_sequences(idx, rep, "R4")
+    header_value_sequence(idx, rep, "R4")
 
 
 def r5(idx, rep):
@@ -297,3 +298,34 @@ def header_index_sequences(idx, rep, rid):
         if len(ps) != 1 or ps[0].result != ("return", want):
             bad = bad or f"{label}: headers {hs0}, steps {steps}: header_index answers {[p.result for p in ps][:2]}, documented {want} (the first column with that name in the headers as they are now)"
     rep.check(bad is None, rid, f"{fh.file}::CsvPath.header_index sequences", bad or f"{n} scenarios", K.where(fh, fh.node))
+
+
+def header_value_sequence(idx, rep, rid):
+    """one Header component (state as __init__ leaves it) evaluated on successive lines, with the header row replaced in between
+    (reset_headers on a second header line): #name addresses the column the name has *now*"""
+    fi = idx.method("Header", "to_value")
+    rep.analysed(fi)
+    st0 = K.instance_store(idx, "Header")
+    steps = [(["a", "b"], ["1", "2"], "b", "2"), (["a", "b"], ["3", "4"], "b", "4"), (["b", "a"], ["5", "6"], "b", "5"), (["x", "b", "y"], ["7", "8", "9"], "b", "8"),
+             (["x", "y"], ["7", "8"], "b", None)]
+    state = {}
+
+    def program(it):
+        out = []
+        for headers, line, name, _ in steps:
+            state["headers"] = headers
+            it.store["self.matcher.line"] = list(line)
+            it.store["self.value"] = -9999999999   # Header.reset() between lines
+            it.store["self.match"] = None
+            out.append(it.call_function(fi, {"skip": []}, "self"))
+        return out
+
+    st = dict(st0)
+    st.update({"self.name": "b", "Header.NEVER": -9999999999})
+    it = Interp(idx, types={"self": "Header", FM.EU: FM.EU}, inline=FM.EU_INLINE, unknown_calls="residual",
+                handlers={"self.matcher.header_index": lambda i, c, r, a, k: (state["headers"].index(a[0]) if a[0] in state["headers"] else None), "math.isnan": FM._isnan},
+                domains={"self.asbool": [False]})
+    ps = it.run_program(program, st)
+    want = [w for _, _, _, w in steps]
+    ok = len(ps) == 1 and ps[0].result == ("return", want)
+    rep.check(ok, rid, f"{fi.file}::Header.to_value over a header change", f"headers/lines {[(h, l) for h, l, _, _ in steps]}: #b reads {[p.result for p in ps][:2]}, documented {want}", K.where(fi, fi.node))
